@@ -3,7 +3,12 @@ import BarterModel.Model.Backtest
 /-! Line-protocol driver for C20.
 Ops: `data_slow g k ...` (same as `data`, paced source), `data k (i:p[:K][@t] | R) ...` (`R` = `MarketStreamEvent::Reconnecting` marker, anywhere; `K` = kind of the Item, every `DataKind`;
 an EMPTY dataset is legal input: `MarketDataInMemory::new` panics on it as on a marker-only one, `run` prints `panic`), `strat t:i:s:q ...` | `strat -`, `run n w`,
-`longdata n k rp ro pm tm` (a LONG dataset given by the formula `Backtest.genEv`; `run` then prints the digests `lseen` / `linst` / `lreqs`).
+`longdata n k rp ro pm tm` (a LONG dataset given by the formula `Backtest.genEv`; `run` then prints the digests `lseen` / `linst` / `lreqs`),
+`tracked t x` (before the dataset op: its last `t` instruments live on `x` exchanges U1..Ux WITHOUT execution link; markers
+then name their exchange - `R` traded, `R1` / `R2` - and a marker `MktEv` carries that number in its `inst` field; a plan
+that trades a tracked instrument is `bad-op`; the execution side is `linkedExchange cExchange` (requests for tracked
+instruments are never answered); `t = k` = empty `executions`. The market side of model and spec does not look at the
+links at all: `market_view_independent_of_execution_links`).
 
 `model` runs every strategy parameterisation alone with `run` under a lazy and an eager action list
 (`schedActs`); for small systems it also builds the N machines, interleaves their action lists
@@ -48,11 +53,18 @@ structure St where
   /-- `longdata`: the dataset is `genData p`, observations are digests -/
   lp : Option LParams := none
   lcache : Option (List LRes) := none
+  /-- `tracked t x`: the last `t` instruments live on `x` exchanges without execution link (`(0, 0)`: none) -/
+  tr : Nat × Nat := (0, 0)
 
-def parseEvents (k : Nat) (toks : List String) : Option (List MktEv) :=
+def parseEvents (k : Nat) (tr : Nat × Nat) (toks : List String) : Option (List MktEv) :=
+  -- a marker names an exchange of the dataset: `R` the traded one (it needs an instrument: t < k, or no `tracked`
+  -- at all), `R1` / `R2` the tracked-only exchanges U1 / U2 (needs x >= 1 / 2); its number goes into `inst`
+  let marker (e : Nat) : Bool := if e == 0 then !(tr.1 == k && k > 0) else e ≤ tr.2
   let rec go (pos : Nat) : List String → Option (List MktEv)
     | [] => some []
-    | "R" :: ts => (go (pos + 1) ts).map (fun l => MktEv.reconnecting pos :: l)
+    | "R" :: ts => if marker 0 then (go (pos + 1) ts).map (fun l => MktEv.reconnecting pos :: l) else none
+    | "R1" :: ts => if marker 1 then (go (pos + 1) ts).map (fun l => ⟨pos, 1, 0, true⟩ :: l) else none
+    | "R2" :: ts => if marker 2 then (go (pos + 1) ts).map (fun l => ⟨pos, 2, 0, true⟩ :: l) else none
     | t :: ts =>
       -- `i:p@t`: an explicit exchange time; the dataset order, not the time, is what the property is about
       -- `i:p:K`: the kind of the Item (`s` sell trade, `z` trade of amount 0, `l` L1, `b` / `u` order book snapshot /
@@ -108,6 +120,20 @@ def ids (l : List Nat) : String := " ".intercalate (l.map toString)
 def seenStr (l : List (Option Nat)) : String :=
   " ".intercalate (l.map fun | some i => toString i | none => "R")
 
+/-- one dataset element as the harness's recorder prints it: the id of an Item; `R` / `R1` / `R2` for a
+disconnect notice of the traded exchange / of U1 / U2 (the number a marker carries in `inst`) -/
+def evTok (m : MktEv) : String :=
+  if m.marker then (if m.inst == 0 then "R" else s!"R{m.inst}") else toString m.id
+
+def evsStr (l : List MktEv) : String := " ".intercalate (l.map evTok)
+
+/-- `tracked t x` is well formed -/
+def trackedOk (t x : Nat) : Bool := decide (1 ≤ t) && decide (1 ≤ x) && decide (x ≤ t) && decide (x ≤ 2)
+
+/-- The execution side of a case: links for the traded instruments only (`tracked`). -/
+def xOf (k : Nat) (tr : Nat × Nat) : Exchange CExch Req AccEv :=
+  linkedExchange cExchange (fun r => decide (r.item.inst < k - tr.1))
+
 /-- `MarketDataInMemory::new` (market_data.rs:62-70) panics on a dataset without any `Item`. -/
 def hasItem (ds : List MktEv) : Bool := ds.any (fun m => !m.marker)
 
@@ -126,8 +152,9 @@ def fuelFor (s : St) : Nat := 8 * (s.ds.length + 4) + 40
 def planRes (s : St) (plan : List PlanItem) : PlanRes :=
   let fuel := fuelFor s
   let st := cInit s.k plan s.ds
-  { lazyS := run cEngine cExchange st (schedActs cEngine cExchange pickLazy fuel st),
-    eagerS := run cEngine cExchange st (schedActs cEngine cExchange pickEager fuel st) }
+  let X := xOf s.k s.tr
+  { lazyS := run cEngine X st (schedActs cEngine X pickLazy fuel st),
+    eagerS := run cEngine X st (schedActs cEngine X pickEager fuel st) }
 
 /-- N concurrent backtests as one system under a round-robin global schedule (`sysRun`); by
 `isolation` each machine must end as it does alone. Executed when the system is small enough to keep
@@ -138,11 +165,12 @@ def sysAgrees (s : St) (n : Nat) (res : List PlanRes) : Bool :=
   let fuel := fuelFor s
   let plan (b : Nat) : List PlanItem := s.plans.getD (b % s.plans.length) []
   let inits : List (BT CEng CExch MktEv AccEv) := (List.range n).map fun b => cInit s.k (plan b) s.ds
-  let lazyActs := inits.map fun st => schedActs cEngine cExchange pickLazy fuel st
-  let eagerActs := inits.map fun st => schedActs cEngine cExchange pickEager fuel st
+  let X := xOf s.k s.tr
+  let lazyActs := inits.map fun st => schedActs cEngine X pickLazy fuel st
+  let eagerActs := inits.map fun st => schedActs cEngine X pickEager fuel st
   -- machine b runs lazily when b is even, eagerly when odd: a mixed global schedule
   let mixed := (List.range n).map fun b => if b % 2 == 0 then lazyActs.getD b [] else eagerActs.getD b []
-  let sys := sysRun cEngine cExchange inits (interleave fuel mixed)
+  let sys := sysRun cEngine X inits (interleave fuel mixed)
   (List.range n).all fun b =>
     match sys[b]?, res[b % s.plans.length]? with
     | some m, some r =>
@@ -164,7 +192,12 @@ def runModel (s : St) (n : Nat) (res : List PlanRes) : List String :=
         && e.eng == engFold cEngine e0 e.processed
         && l.stopped == some .shutdown && e.stopped == some .shutdown
       let det := cSummarise l.eng == cSummarise e.eng
-      [ line ["seen", toString b, seenStr l.eng.mv.seen] ] ++
+      -- what the engine task processed (`processed`), which is what its recorder holds (`mv.seen`); the markers'
+      -- exchanges are read off the processed events
+      let tok (m : MktEv) : Option Nat := if m.marker then none else some m.id
+      if l.eng.mv.seen != (marketOf l.processed).map tok || marketOf e.processed != marketOf l.processed then
+        ["bad-state recorder"] else
+      [ line ["seen", toString b, evsStr (marketOf l.processed)] ] ++
       ((List.range s.k).map fun j => line ["inst", toString b, toString j, ids (l.eng.mv.instSeen.getD j [])]) ++
       [ line ["reqs", toString b, " ".intercalate (l.eng.mv.reqs.map reqStr)],
         line ["own", toString b, fmtBool own],
@@ -200,6 +233,21 @@ def longRes (p : LParams) (plan : List PlanItem) : LRes :=
   let eager := (AccEv.snapshot (initBals p.k) :: resp).foldl AView.onAccount e0.av
   { fin := fin, det := eager == e0.av }
 
+/-- `longdata` after `tracked t x`: the marker at `pos` names exchange `E[(pos / rp) mod |E|]`,
+`E = [traded (if t < k), U1 .. Ux]` (numbers 0, 1 .. x). -/
+def longMarkerExch (p : LParams) (tr : Nat × Nat) (pos : Nat) : Nat :=
+  let first := if tr.1 < p.k then 0 else 1
+  first + (pos / p.rp) % (tr.2 + 1 - first)
+
+/-- `lmark b c0 .. cx`: disconnect notices per exchange. `consumes_all_before_shutdown`: the events a cleanly
+shut down engine processed are exactly the dataset, so these are the dataset's counts (the digesting engine
+itself only counts markers, `R=`). Printed only after `tracked`. -/
+def lmarkLine (p : LParams) (tr : Nat × Nat) (b : Nat) : List String :=
+  if tr.1 == 0 then [] else
+  let marks := (List.range p.n).filter p.isMarker
+  [ line (["lmark", toString b] ++ (List.range (tr.2 + 1)).map fun e =>
+      toString (marks.filter fun pos => longMarkerExch p tr pos == e).length) ]
+
 def seenLine (b : Nat) (n : Nat) (d : SeqDig) (h : Nat) : String :=
   line ["lseen", toString b, kv "n" (toString d.cnt), kv "items" (toString d.items), kv "R" (toString d.markers),
         kv "order" (match d.firstBad with
@@ -217,8 +265,8 @@ def runLongModel (s : St) (p : LParams) (n : Nat) (res : List LRes) : List Strin
         let d := r.fin.dg.inst.getD j (0, 0)
         line ["linst", toString b, toString j, kv "n" (toString d.1), kv "h" (toString d.2),
               kv "px" (optStr ((r.fin.mv.price[j]?).join))]) ++
-      [ line ["lreqs", toString b, " ".intercalate (r.fin.mv.reqs.map reqStr)],
-        -- `summary_own_engine` holds for every engine and schedule
+      [ line ["lreqs", toString b, " ".intercalate (r.fin.mv.reqs.map reqStr)] ] ++ lmarkLine p s.tr b ++
+      [ -- `summary_own_engine` holds for every engine and schedule
         line ["own", toString b, "1"],
         line ["alone", toString b, if r.det then "1" else "{0|1}"] ]
     | none => ["bad-state"]
@@ -262,8 +310,9 @@ def runLongSpec (s : St) (p : LParams) (n : Nat) : List String :=
     [ line ["lseen", toString b, kv "n" (toString p.n), kv "items" (toString items), kv "R" (toString (p.n - items)),
             kv "order" "ok", kv "dups" "0", kv "skipped" "0", kv "last" (toString (p.n - 1)), kv "h" (toString h)] ] ++
     instLines b ++
-    [ line ["lreqs", toString b, " ".intercalate ((reqs.getD (b % s.plans.length) []).map reqStr)],
-      line ["own", toString b, "1"], line ["alone", toString b, "1"] ]
+    [ line ["lreqs", toString b, " ".intercalate ((reqs.getD (b % s.plans.length) []).map reqStr)] ] ++
+    lmarkLine p s.tr b ++
+    [ line ["own", toString b, "1"], line ["alone", toString b, "1"] ]
 
 def model : Drv St where
   init := { k := 0, ds := [], plans := [] }
@@ -272,19 +321,29 @@ def model : Drv St where
     | none => (s, ["bad-op"])
     | some toks =>
     match toks with
+    | ["tracked", t, x] =>
+      match t.toNat?, x.toNat? with
+      | some t, some x =>
+        if trackedOk t x then ({ k := 0, ds := [], plans := [], tr := (t, x) }, [s!"tracked {t} {x}"])
+        else ({ k := 0, ds := [], plans := [] }, ["bad-op"])
+      | _, _ => ({ k := 0, ds := [], plans := [] }, ["bad-op"])
     | "data" :: k :: evs =>
       match k.toNat? with
       | some k =>
-        match parseEvents k evs with
-        | some ds => ({ k := k, ds := ds, plans := [] }, [s!"data {k} {ds.length}"])
-        | none => (s, ["bad-op"])
+        if s.tr.1 > k then ({ k := 0, ds := [], plans := [], tr := s.tr }, ["bad-op"]) else
+        match parseEvents k s.tr evs with
+        | some ds => ({ k := k, ds := ds, plans := [], tr := s.tr }, [s!"data {k} {ds.length}"])
+        | none => ({ k := 0, ds := [], plans := [], tr := s.tr }, ["bad-op"])
       | none => (s, ["bad-op"])
     | "longdata" :: args =>
       match parseLong args with
-      | some p => ({ k := p.k, ds := [], plans := [], lp := some p }, [s!"longdata {p.k} {p.n}"])
+      | some p =>
+        if s.tr.1 > p.k then ({ k := 0, ds := [], plans := [], tr := s.tr }, ["bad-op"]) else
+        ({ k := p.k, ds := [], plans := [], lp := some p, tr := s.tr }, [s!"longdata {p.k} {p.n}"])
       | none => (s, ["bad-op"])
     | "strat" :: items =>
-      match parsePlan s.k items with
+      -- a plan may only trade instruments of the traded exchange
+      match parsePlan (s.k - s.tr.1) items with
       | some p => ({ s with plans := s.plans ++ [p], cache := none, lcache := none }, [s!"strat {s.plans.length}"])
       | none => (s, ["bad-op"])
     | ["run", n, w] =>
@@ -324,7 +383,7 @@ def model : Drv St where
 /-- The property text, as observations: for each of the `n` backtests. -/
 def runSpec (s : St) (n : Nat) : List String :=
   (List.range n).flatMap fun b =>
-    [ line ["seen", toString b, seenStr (s.ds.map fun m => if m.marker then none else some m.id)] ] ++
+    [ line ["seen", toString b, evsStr s.ds] ] ++
     ((List.range s.k).map fun j =>
       line ["inst", toString b, toString j, ids ((s.ds.filter (fun m => !m.marker && m.inst == j)).map (·.id))]) ++
     [ line ["own", toString b, "1"], line ["alone", toString b, "1"] ]
@@ -336,19 +395,28 @@ def spec : Drv St where
     | none => (s, ["bad-op"])
     | some toks =>
     match toks with
+    | ["tracked", t, x] =>
+      match t.toNat?, x.toNat? with
+      | some t, some x =>
+        if trackedOk t x then ({ k := 0, ds := [], plans := [], tr := (t, x) }, [])
+        else ({ k := 0, ds := [], plans := [] }, ["bad-op"])
+      | _, _ => ({ k := 0, ds := [], plans := [] }, ["bad-op"])
     | "data" :: k :: evs =>
       match k.toNat? with
       | some k =>
-        match parseEvents k evs with
-        | some ds => ({ k := k, ds := ds, plans := [] }, [])
-        | none => (s, ["bad-op"])
+        if s.tr.1 > k then ({ k := 0, ds := [], plans := [], tr := s.tr }, ["bad-op"]) else
+        match parseEvents k s.tr evs with
+        | some ds => ({ k := k, ds := ds, plans := [], tr := s.tr }, [])
+        | none => ({ k := 0, ds := [], plans := [], tr := s.tr }, ["bad-op"])
       | none => (s, ["bad-op"])
     | "longdata" :: args =>
       match parseLong args with
-      | some p => ({ k := p.k, ds := [], plans := [], lp := some p }, [])
+      | some p =>
+        if s.tr.1 > p.k then ({ k := 0, ds := [], plans := [], tr := s.tr }, ["bad-op"]) else
+        ({ k := p.k, ds := [], plans := [], lp := some p, tr := s.tr }, [])
       | none => (s, ["bad-op"])
     | "strat" :: items =>
-      match parsePlan s.k items with
+      match parsePlan (s.k - s.tr.1) items with
       | some p => ({ s with plans := s.plans ++ [p] }, [])
       | none => (s, ["bad-op"])
     | ["run", n, w] =>
